@@ -94,6 +94,12 @@ def run_and_collect(prog, script: str, flavor: str, tag: str, out, case, timeout
                                              'script_tag': tag},
                                   'case': case, 'files': {'script.txt': script}})
         return None
+    stale = [rec for rec in res['log'] if rec.get('kind') == 'ilog_stale']
+    if stale:
+        out['violations'].append({'mechanism': 'shell-logs-through-the-callers-logger-object',
+                                  'detail': {'messages': [r['d'].get('msg', '')[:80] for r in stale[:3]],
+                                             'script_tag': tag},
+                                  'case': case, 'files': {'script.txt': script}})
     for rec in res['log']:
         if rec.get('kind') in ('unknown_op', 'op_threw', 'unparsable', 'construct_failed',
                                'final_threw'):
